@@ -20,6 +20,13 @@ pub struct Tape {
     pub ops: Vec<[u32; OP_WORDS]>,
 }
 
+/// element i of a list read back from the contract, or a default when the list is shorter
+/// than the configuration requests led us to expect (a defective tree may have stored
+/// something else; the observers report that, the generator must not fall over it)
+pub fn at(list: &[String], i: usize, default: &str) -> String {
+    list.get(i).cloned().unwrap_or_else(|| default.to_string())
+}
+
 /// monotone choice among n alternatives
 pub fn pick(w: u32, n: usize) -> usize {
     if n == 0 {
@@ -559,7 +566,7 @@ impl<'a> Interp<'a> {
             let owner = POOL[pick(ww, 8)].to_string();
             let price = price_string(ww.rotate_left(3), ww.rotate_left(9), self.spec.precision);
             let size = size_of(ww.rotate_left(17), self.spec.increment);
-            let quote = cfg.quotes[pick(ww.rotate_left(5), cfg.quotes.len())].clone();
+            let quote = crate::gen::at(&cfg.quotes, pick(ww.rotate_left(5), cfg.quotes.len()), "quote1");
             // only orders an earlier version could have admitted: amounts inside the 96-bit zone
             let admissible = match parse(&price) {
                 Parsed::Num(p) => size < (1u128 << 90) && p.mul_u128(size).as_u128().map(|t| t < (1u128 << 90)).unwrap_or(false),
@@ -667,7 +674,7 @@ impl<'a> Interp<'a> {
         } else {
             cfg.base.clone()
         };
-        let mut quote = cfg.quotes[pick(w[1], cfg.quotes.len())].clone();
+        let mut quote = at(&cfg.quotes, pick(w[1], cfg.quotes.len()), "quote1");
         let mut price = price_string(w[4], w[8], self.spec.precision);
         let mut size = size_of(w[3], cfg.increment);
         let mut id = uuid_of(self.next_ask);
@@ -749,7 +756,7 @@ impl<'a> Interp<'a> {
     fn create_bid(&mut self, w: &[u32; OP_WORDS], book: &Book, cfg: &Cfg, faulty: bool, fw: u32) -> Step {
         let mut sender = self.trader(w[7], &cfg.bid_attrs);
         let mut base = cfg.base.clone();
-        let mut quote = cfg.quotes[pick(w[1], cfg.quotes.len())].clone();
+        let mut quote = at(&cfg.quotes, pick(w[1], cfg.quotes.len()), "quote1");
         let mut price = price_string(w[4], w[8], self.spec.precision);
         let mut size = size_of(w[3], cfg.increment);
         if self.p.tie_seeking && gate(w[10], 500) {
@@ -833,7 +840,7 @@ impl<'a> Interp<'a> {
         if asks.is_empty() || bids.is_empty() {
             // a match on orders that do not exist
             return Step::Execute {
-                sender: cfg.executors[pick(w[7], cfg.executors.len())].clone(),
+                sender: at(&cfg.executors, pick(w[7], cfg.executors.len()), "acct0"),
                 funds: vec![],
                 msg: wire::m_match(
                     &asks.first().map(|a| a.id.clone()).unwrap_or_else(|| uuid_of(999_999)),
@@ -892,7 +899,7 @@ impl<'a> Interp<'a> {
                 }
             }
         };
-        let mut sender = cfg.executors[pick(w[7], cfg.executors.len())].clone();
+        let mut sender = at(&cfg.executors, pick(w[7], cfg.executors.len()), "acct0");
         let mut funds = vec![];
         let mut ask_id = a.id.clone();
         let mut bid_id = b.id.clone();
@@ -951,7 +958,7 @@ impl<'a> Interp<'a> {
             let a = asks[pick(w[1], asks.len())];
             (a.id.clone(), a.owner.clone(), a.size)
         };
-        let executor = cfg.executors[pick(w[7], cfg.executors.len())].clone();
+        let executor = at(&cfg.executors, pick(w[7], cfg.executors.len()), "acct0");
         let mut sender = if kind == K_CANCEL_ASK { owner.clone() } else { executor };
         let mut funds = vec![];
         let inc = cfg.increment.max(1);
@@ -998,12 +1005,12 @@ impl<'a> Interp<'a> {
     fn reverse_bid(&mut self, kind: usize, w: &[u32; OP_WORDS], book: &Book, cfg: &Cfg, faulty: bool, fw: u32) -> Step {
         let bids: Vec<&Bid> = book.bids.values().collect();
         let (mut id, owner, remaining, qd) = if bids.is_empty() {
-            (uuid_of(999_996), POOL[0].to_string(), 0, cfg.quotes[0].clone())
+            (uuid_of(999_996), POOL[0].to_string(), 0, crate::gen::at(&cfg.quotes, 0, "quote1"))
         } else {
             let b = bids[pick(w[1], bids.len())];
             (b.id.clone(), b.owner.clone(), b.rem_base().unwrap_or(0), b.quote_denom.clone())
         };
-        let executor = cfg.executors[pick(w[7], cfg.executors.len())].clone();
+        let executor = at(&cfg.executors, pick(w[7], cfg.executors.len()), "acct0");
         let mut sender = if kind == K_CANCEL_BID { owner.clone() } else { executor };
         let mut funds = vec![];
         let inc = cfg.increment.max(1);
@@ -1157,7 +1164,7 @@ impl<'a> Interp<'a> {
                         v.push(POOL[pick(w[10], 8)].to_string());
                     }
                 }
-                3 => v = vec![POOL[pick(w[10], 8)].to_string(), v[0].clone()],
+                3 => v = vec![POOL[pick(w[10], 8)].to_string(), at(&v, 0, "acct0")],
                 _ => v = vec![],
             }
             ch.executors = Some(v);
@@ -1205,7 +1212,7 @@ impl<'a> Interp<'a> {
                 _ => vec!["bid.kyc".to_string(), "bid.kyc".to_string()],
             });
         }
-        let mut sender = cfg.executors[pick(w[7], cfg.executors.len())].clone();
+        let mut sender = at(&cfg.executors, pick(w[7], cfg.executors.len()), "acct0");
         if faulty {
             match pick(fw, 6) {
                 0..=2 => sender = other_roles(book, cfg, &cfg.executors, w[9]),
